@@ -292,13 +292,13 @@ pub fn check_c16(c: &ZCase, acc: &mut Acc, record: bool) -> Verdict {
 }
 
 /// a user codec that stores its bytes as a compressed block through the context it is handed
-struct ZBlob<'a>(&'a [u8], Compression);
+pub(crate) struct ZBlob<'a>(pub &'a [u8], pub Compression);
 impl desert::BinarySerializer for ZBlob<'_> {
     fn serialize<O: BinaryOutput>(&self, context: &mut SerializationContext<O>) -> desert::Result<()> {
         context.write_compressed(self.0, self.1)
     }
 }
-struct ZOwned(Vec<u8>);
+pub(crate) struct ZOwned(pub Vec<u8>);
 impl desert::BinaryDeserializer for ZOwned {
     fn deserialize(context: &mut DeserializationContext<'_>) -> desert::Result<Self> {
         Ok(ZOwned(context.read_compressed()?))
